@@ -255,12 +255,18 @@ def check_star_imports(repo, res, rule):
                 raise InterpRaise('ImportError', args[0])
             return mod
         project = Obj(m.cls('Project'), {'get_nmodule': Native('get_nmodule', get_nmodule)}, 'project')
+        # the importing module rebinds pub1 further down (pub1 = traced(pub1)): the star copy must still be there for the reads
+        # between the import and the rebinding
+        later = m.name('pub1', (9, 0))
+        m.add(f, later)
         top.attrs['_star_imports'] = [((1, 20), (1, 19), 'missing_first', f), ((2, 20), (2, 14), 'b', f),
                                       ((3, 20), (3, 19), 'missing_last', f)]
         m.it.call(m.it.getattr(top, 'resolve_star_imports'), [project], {})
-        bound = {str(n.attrs['name']): n for n in f.attrs['_names']}
+        bound = {str(n.attrs['name']): n for n in f.attrs['_names'] if n is not later}
+        at5 = m.describe(m.lookup(m.names_at(f, (5, 0)), 'pub1'))
         ok = set(bound) == {'pub1', 'pub2'} and all(n.cls.name == 'ImportedName' and n.attrs.get('is_star') is True
-                                                     and n.attrs.get('module') == 'b' for n in bound.values())
+                                                     and n.attrs.get('module') == 'b' for n in bound.values()) \
+            and at5 == frozenset([bound['pub1'].oid])
         return ok, 'names bound from `from missing_first import *; from b import *; from missing_last import *`: %s' % sorted(bound)
     _guard(scenario, res, rule, 'star imports: an unresolvable one is skipped, the others are expanded', SCOPE,
            'every public name of every resolvable star import must be bound (marked is_star); an unresolvable star import must '
@@ -534,6 +540,25 @@ def check_scopes(repo, res, rule_entry, rule_methods):
                 sorted(in_mod or []), is_local)
     _guard(global_route, res, rule_methods, 'global-declared binding goes to the module', SCOPE,
            'Flow.add_name must route global-declared names to the module table')
+
+    def every_registered_name_knows_its_scope():
+        # ImportedName.resolve, Name.filename and lint read name.scope on every binding they meet
+        top, tf, gx, gy = build()
+        fs = m.scope('FuncScope', top, top)
+        ff = m.flow('func', fs)
+        fs.attrs['flow'] = ff
+        fs.attrs['globals'].add('g')
+        gname = m.name('g', (5, 4))
+        lname = m.name('loc', (6, 4))
+        m.add(ff, gname)
+        m.add(ff, lname)
+        sg, sl = gname.attrs.get('scope'), lname.attrs.get('scope')
+        return sg is fs and sl is fs, 'after add_name the local binding has scope %r and the binding made under `global g` has scope ' \
+            '%r (both must be the function scope the statement is in)' % (sl, sg)
+    _guard(every_registered_name_knows_its_scope, res, rule_methods, 'add_name stamps the scope on every binding, global-declared or not', SCOPE,
+           'every registered binding must carry .scope: ImportedName.resolve and Name.filename dereference it (a lazy `global json; '
+           'import json` would raise AttributeError in assist/location)')
+
     def nested_class_skips_outer_body():
         top, tf, gx, gy = build()
         a = m.scope('ClassScope', top, top)
@@ -620,3 +645,25 @@ def check_scopes(repo, res, rule_entry, rule_methods):
     _guard(global_does_not_leak, res, rule_methods, 'a global declaration does not extend into nested scopes', SCOPE,
            'a `global` declaration affects only the scope that contains it; a nested function binding the name has its own local')
     res.count(rule_entry + '_scenarios', 10, floor=10)
+
+
+def check_name_scope(repo, res, rule):
+    """Flow.add_name interpreted for a plain local and for a binding made under a `global` declaration: both must carry .scope."""
+    m = get_model(repo)
+
+    def scenario():
+        builtins = Obj(m.cls('BaseScope'), {'names': {}}, 'builtins')
+        top = m.scope('SourceScope', builtins)
+        fs = m.scope('FuncScope', top, top)
+        ff = m.flow('func', fs)
+        fs.attrs['flow'] = ff
+        fs.attrs['globals'].add('g')
+        gname = m.name('g', (5, 4))
+        lname = m.name('loc', (6, 4))
+        m.add(ff, gname)
+        m.add(ff, lname)
+        sg, sl = gname.attrs.get('scope'), lname.attrs.get('scope')
+        return sg is fs and sl is fs, 'local -> %r, global-declared -> %r' % (sl, sg)
+    _guard(scenario, res, rule, 'every registered binding carries .scope (also under a global declaration)', SCOPE,
+           'Flow.add_name must stamp name.scope on every binding it registers: ImportedName.resolve and Name.filename dereference it, '
+           'so `global json; import json` followed by a completion on json would raise AttributeError')
